@@ -24,6 +24,7 @@ RULE = ('histories of 5-40 calls on one SqParser (plain and with a dict parse ca
         'written by the programs (incl. lambdas defined by one call and invoked by a later one). Every (predecessor kind -> successor entry point) pair is exercised. '
         'Non-trivial = a call whose outcome was compared with the history-free outcome for the same visible arguments; distinct = distinct (history prefix hash, call).')
 RULE += ' A sample of the calls is also replayed in a fresh process (state at module level); names templates include one that shadows builtins and a read-only mapping; corpora contain equal-but-differently-spelled literals whose text is exposed.'
+RULE += ' Sweep: every text of the corpus, twice, on one long-lived parser per worker process, each outcome compared with the outcome of the same call in a fresh process (a zygote forks a child per distinct call; only the child imports the package; outcomes are shared between workers); the corpus includes texts that raise decimal signals (underflow) and print equal numbers written differently.'
 ASSUMPTIONS = ['visible arguments = source text, budget, and the contents of names with callables treated as opaque (equal if both are callables)',
                'a partially consumed list_names generator is abandoned, never resumed after another call',
                'a history-free parser is a freshly constructed SqParser (about one in seven) or a deep copy of a constructed-but-never-used one (17 ms instead of 130 ms); it serves exactly one call']
